@@ -388,9 +388,12 @@ def oracle_c13(case, obs):
                 if k not in expect and not progs.is_hostile_atom(ev_atom(ev, k)):
                     if progs.canon_value(m.get(progs.key_name(k), "<missing>")) != progs.canon_value(v):
                         return "%s: undeclared field %s changed" % (where, progs.key_name(k))
-            if len(calls) != len(decl):
-                return "%s: %d serializer invocations for %d declared fields" % (where, len(calls), len(decl))
-            if sorted(c[0] for c in calls) != sorted(k for k, _ in decl):
+            # fields declared with the library's own Field.for_types (harness: "id" on even keys) have no
+            # invocation counter
+            counted = [k for k, f in decl if not (f[0] == "id" and k % 2 == 0)]
+            if len(calls) != len(counted):
+                return "%s: %d serializer invocations for %d declared fields" % (where, len(calls), len(counted))
+            if sorted(c[0] for c in calls) != sorted(counted):
                 return "%s: serializers invoked for %r" % (where, [c[0] for c in calls])
         else:
             kinds = [m.get("message_type") for m in window]
